@@ -137,8 +137,40 @@ pub mod ecma {
                 let b = s.as_bytes();
                 assert!(b.len() <= ATOM_CAP, "stand-in Atom capacity exceeded");
                 let mut buf = [0u8; ATOM_CAP];
-                buf[..b.len()].copy_from_slice(b); // memcpy: no loop to unwind
-                Atom { len: b.len() as u8, buf }
+                let n = b.len();
+                // unrolled copy: no loop to unwind, no memcpy (CBMC keeps the bytes of literals concrete this way)
+                if n > 0 { buf[0] = b[0]; }
+                if n > 1 { buf[1] = b[1]; }
+                if n > 2 { buf[2] = b[2]; }
+                if n > 3 { buf[3] = b[3]; }
+                if n > 4 { buf[4] = b[4]; }
+                if n > 5 { buf[5] = b[5]; }
+                if n > 6 { buf[6] = b[6]; }
+                if n > 7 { buf[7] = b[7]; }
+                if n > 8 { buf[8] = b[8]; }
+                if n > 9 { buf[9] = b[9]; }
+                if n > 10 { buf[10] = b[10]; }
+                if n > 11 { buf[11] = b[11]; }
+                if n > 12 { buf[12] = b[12]; }
+                if n > 13 { buf[13] = b[13]; }
+                if n > 14 { buf[14] = b[14]; }
+                if n > 15 { buf[15] = b[15]; }
+                if n > 16 { buf[16] = b[16]; }
+                if n > 17 { buf[17] = b[17]; }
+                if n > 18 { buf[18] = b[18]; }
+                if n > 19 { buf[19] = b[19]; }
+                if n > 20 { buf[20] = b[20]; }
+                if n > 21 { buf[21] = b[21]; }
+                if n > 22 { buf[22] = b[22]; }
+                if n > 23 { buf[23] = b[23]; }
+                if n > 24 { buf[24] = b[24]; }
+                if n > 25 { buf[25] = b[25]; }
+                if n > 26 { buf[26] = b[26]; }
+                if n > 27 { buf[27] = b[27]; }
+                if n > 28 { buf[28] = b[28]; }
+                if n > 29 { buf[29] = b[29]; }
+                if n > 30 { buf[30] = b[30]; }
+                Atom { len: n as u8, buf }
             }
             /// harness constructor: symbolic bytes with a given length (caller guarantees ASCII)
             pub fn from_raw(len: u8, buf: [u8; ATOM_CAP]) -> Self { Atom { len, buf } }
